@@ -1092,7 +1092,7 @@ CLAIM = {
             'for finite floats are concrete Coq functions as well (FloatText.v), float(str x) = x proved for every '
             'binary64 value, so the C18_*_all_concrete theorems carry NO hypothesis about numbers; both layers are compared '
             'with CPython on every number of every case (laws_ok). C18_end_to_end_bytes_*: the same at the level of BYTES with no premise about numbers, codec or '
-            'compression (UTF-8 codec model of C17, none / gzip model of C16, any byte re-chunking and read size; only data premises). \\r excluded because load_from_file '
+            'compression (UTF-8 codec model of C17, none / gzip model / zstd frame model of C16, any byte re-chunking and read size; only data premises). \\r excluded because load_from_file '
             'reads in text mode (universal newlines).',
     'technique': 'Coq proof (token alignment for the sequential replaces; split/join algebra; rev_ind parity lemmas; '
                  'atomic consumption of each field by merge; reuse of the C15 unframe theorem for the file path) + '
